@@ -9,7 +9,7 @@
    parameter over which the theorems quantify (Workflow.compile's visiting order [ord];
    accept / reject is proved independent of it) or proved irrelevant (validateDAG's
    sweeps, the type inference loop).  Only statements, each closed by [exact]. *)
-From Eino Require Import Base.Util Model.Builder Proofs.Builder Proofs.BuilderReject Proofs.BuilderDag Proofs.BuilderSound Proofs.BuilderReject2 Proofs.BuilderInfer Proofs.BuilderWfOrder Proofs.BuilderReject3 Proofs.BuilderSticky.
+From Eino Require Import Base.Util Model.Builder Proofs.Builder Proofs.BuilderReject Proofs.BuilderDag Proofs.BuilderSound Proofs.BuilderReject2 Proofs.BuilderInfer Proofs.BuilderWfOrder Proofs.BuilderReject3 Proofs.BuilderSticky Proofs.BuilderAgree.
 From Coq Require Import Permutation.
 Local Open Scope string_scope.
 Local Open Scope list_scope.
@@ -347,6 +347,31 @@ Example workflow_compile_order_nonvacuous :
   snd (w_compile fixed w opt_default ["a"] []) = OErr EEdgeStartUnknown /\
   snd (w_compile fixed w opt_default ["b"] []) = OErr EMapped.
 Proof. exact two_failing_orders. Qed.
+
+(* "the same construction sequence gives the same outcome on every attempt", for a Workflow, in
+   full: two complete executions of one call sequence — every Compile of either execution visiting
+   the nodes in its own orders ([same_call]: equal calls up to the [ord] / [sord] arguments of
+   WCompile) — agree call by call on the kind of outcome: ok, error, compiled ([okind]).  The
+   states of the two executions do differ (edge lists in other orders; after a failed attempt other
+   nodes consumed and another deferred error met: the Example), the proof is a simulation
+   (Proofs/BuilderAgree.v): both workflows doomed, or equal up to list order ([weq] / [geq]), or
+   compiled and agreeing on what is still waiting ([ceq]). *)
+Theorem workflow_executions_agree :
+  forall st cs1 cs2,
+    Forall2 same_call cs1 cs2 ->
+    Forall2 (fun o1 o2 => okind o1 = okind o2)
+            (snd (run_calls (wstep fixed) (w_init st) cs1)) (snd (run_calls (wstep fixed) (w_init st) cs2)).
+Proof. exact Proofs.BuilderAgree.workflow_executions_agree. Qed.
+Print Assumptions workflow_executions_agree.
+
+Example workflow_executions_agree_nonvacuous :
+  forall cs1 cs2, two_failing_then cs1 cs2 ->
+    Forall2 same_call cs1 cs2 /\
+    map okind (snd (run_calls (wstep fixed) (w_init false) cs1)) = map okind (snd (run_calls (wstep fixed) (w_init false) cs2)) /\
+    w_nodes (final (wstep fixed) (w_init false) cs1) <> w_nodes (final (wstep fixed) (w_init false) cs2).
+Proof.
+  intros cs1 cs2 H. split; [exact (two_failing_then_same cs1 cs2 H)|exact (two_failing_then_outcomes cs1 cs2 H)].
+Qed.
 
 (* no_modification_after_compile, continued (F-C20e): a static value set on a node of a
    compiled Workflow is not applied by the next Compile — it fails, for every pair of orders *)
